@@ -611,7 +611,7 @@ def check_C05(tier, seed):
 
 
 LOC_SIGMA = (97, 10, 9, 27, 233, 769, 28450, 128512)
-LOC_SIGMA2 = (0x7F, 0x80, 0x7FF, 0x800, 0xFFFF, 0x10000, 13, 0x2028, 173)
+LOC_SIGMA2 = (0x7F, 0x80, 0x7FF, 0x800, 0xFFFF, 0x10000, 13, 10, 0x2028, 173)
 
 
 def check_C06(tier, seed):
@@ -1471,6 +1471,18 @@ def guard_size_family(seed, base_id):
             ("Init", [F.inf_rule(cat(A, chr_(X)), menu=[F.D(False, 1, 1)]), F.simple_rule(any_())]),
             ("S1", [F.inf_rule(cat(B, chr_(X)), menu=[F.D(False, 0, 1)]), F.simple_rule(any_())])],
             sigma=few + [X], k=4))
+    # bracket sets that list 10..20 single characters one by one (character arms, not ranges)
+    from progs import plus
+    for n in (10, 11, 13, 19, 20):
+        singles = [(40 + 2 * i, 40 + 2 * i) for i in range(n)]
+        rnd.shuffle(singles)
+        S = set_(singles)
+        pts = sorted({c_ + d for c_, _ in singles for d in (-1, 0, 1)})
+        out.append(Program(base_id + len(out), [("Init", [F.simple_rule(plus(S)), F.simple_rule(any_())])],
+                           sigma=pts, k=2 if n > 13 else 2, named=False))
+        out.append(Program(base_id + len(out), [("Init", [F.simple_rule(cat(S, chr_(120))), F.simple_rule(S),
+                                                         F.simple_rule(any_())])],
+                           sigma=pts + [120], k=2, named=False))
     return [p for p in out if p.well_formed()]
 
 
@@ -1571,7 +1583,8 @@ def check_C11(tier, seed):
                 "at once) on all inputs of length <= 3; and hand-written classes of 8..11 pieces (around "
                 "the guard-chain / search-table threshold), each with a sibling class that has the same "
                 "first / last character and number of pieces but differs in one character: alone, before a "
-                "character, both in one rule, one as a rule and one as a right context, in two rule sets" % maxpoint,
+                "character, both in one rule, one as a rule and one as a right context, in two rule sets; "
+                "bracket sets listing 10..20 single characters (character arms) under `+` and before a character" % maxpoint,
         "samples": [{"transition": trs[0]}] if trs else [],
         "tlc_cmd": tlc.cmd, "exhaustive": True,
     }
